@@ -269,6 +269,40 @@ func main() {
 					emitVerify(v, "R-junk-bits", pub, msg, ctx, forge(v, s, r, pub, R2, msg, ctx))
 				}
 			}
+			// structured signature scalars: with the neutral element as key, (R = [S]B, S) satisfies the equation for every message, whatever S
+			// is - so S can be given limb patterns (every 56 / 60 / 64-bit limb equal, single bits, all ones) that random signatures never have
+			if i == 0 {
+				var pats []*big.Int
+				for _, W := range []uint{56, 60, 64} {
+					for _, lv := range []*big.Int{big.NewInt(1), big.NewInt(2), new(big.Int).Lsh(big.NewInt(1), W-1), new(big.Int).Lsh(big.NewInt(1), W-3),
+						new(big.Int).Sub(new(big.Int).Lsh(big.NewInt(1), W), big.NewInt(1)), new(big.Int).Add(new(big.Int).Lsh(big.NewInt(1), W-3), big.NewInt(2))} {
+						x := new(big.Int)
+						for i := uint(0); i*W < uint(c.L.BitLen()); i++ {
+							x.Or(x, new(big.Int).Lsh(lv, i*W))
+						}
+						x.Mod(x, new(big.Int).Lsh(big.NewInt(1), uint(c.L.BitLen()-1)))
+						pats = append(pats, x, new(big.Int).Mod(new(big.Int).Lsh(x, 2), c.L))
+					}
+				}
+				for pi, S := range pats {
+					if S.Cmp(c.L) >= 0 {
+						continue
+					}
+					neutral := small[0]
+					for _, T := range small {
+						if T.X.Sign() == 0 && T.Y.Cmp(big.NewInt(1)) == 0 {
+							neutral = T
+						}
+					}
+					Ib := c.Encode(neutral)
+					Rs := c.Encode(c.Mul(S, c.Base()))
+					emitVerify(v, fmt.Sprintf("S-structured#%d", pi), Ib, msg, ctx, forge(v, big.NewInt(0), S, Ib, Rs, msg, ctx))
+					if pi%4 == 0 { // and with R for another scalar: must not verify
+						Ro := c.Encode(c.Mul(new(big.Int).Add(S, big.NewInt(1)), c.Base()))
+						emitVerify(v, fmt.Sprintf("S-structured-wrong-R#%d", pi), Ib, msg, ctx, forge(v, big.NewInt(0), S, Ib, Ro, msg, ctx))
+					}
+				}
+			}
 			// small-order keys (A = T): S = r verifies the cofactored equation for every message
 			for ti, T := range small {
 				Tb := c.Encode(T)
